@@ -74,6 +74,24 @@ pub(crate) fn tokenize(
     fileid: usize,
     filetext: &str,
 ) -> Result<TokenResult, TokenizerError> {
+    let mut include_stack = vec![canonical_name(&filename.full)];
+    tokenize_with_includes(filename, fileid, filetext, &mut include_stack)
+}
+
+// the canonical form of a file name, if the file exists. Otherwise the name is used as it is
+fn canonical_name(name: &std::ffi::OsStr) -> std::ffi::OsString {
+    std::fs::canonicalize(name).map_or_else(|_| name.to_os_string(), std::ffi::OsString::from)
+}
+
+// tokenize_with_includes()
+// include_stack contains the names of the files that are currently being processed, i.e. the
+// file itself and all the files that include it. It is used to detect recursive includes.
+fn tokenize_with_includes(
+    filename: &Filename,
+    fileid: usize,
+    filetext: &str,
+    include_stack: &mut Vec<std::ffi::OsString>,
+) -> Result<TokenResult, TokenizerError> {
     let mut filenames: Vec<Filename> = vec![filename.clone()];
     let mut filedatas: Vec<String> = vec![filetext.to_owned()];
     let filebytes = filetext.as_bytes();
@@ -124,13 +142,23 @@ pub(crate) fn tokenize(
 
                 // check if incname is an accessible file
                 let incpathref = Path::new(&incfilename);
-                let loadresult = loader::load(incpathref);
-                if let Ok(incfiledata) = loadresult {
-                    let mut tokresult = tokenize(
+                // a file that includes itself, directly or indirectly, can't be loaded
+                let canonical_incname = canonical_name(&incfilename);
+                let loadresult = if include_stack.contains(&canonical_incname) {
+                    None
+                } else {
+                    loader::load(incpathref).ok()
+                };
+                if let Some(incfiledata) = loadresult {
+                    include_stack.push(canonical_incname);
+                    let tokresult = tokenize_with_includes(
                         &Filename::new(incfilename, incname),
                         next_fileid,
                         &incfiledata,
-                    )?;
+                        include_stack,
+                    );
+                    include_stack.pop();
+                    let mut tokresult = tokresult?;
 
                     next_fileid += tokresult.filenames.len();
 
